@@ -747,6 +747,22 @@ def r01_10(ctx):
     delegate(ctx, c05.r05_6, lambda c: "_finalize_node" in c or "_finalize_choice" in c)
     delegate(ctx, c05.r05_3, lambda c: True)
 
+def r01_11(ctx):
+    """R01.11 a default is replaced by `n` only when it is one of the listed legacy bool spellings *as written*: the sanitiser
+    looks the default's name up unchanged (TRUE / YES / NO ... are legal option names, and a default naming such an option
+    must keep deciding the value) - no case folding on either side of the lookup."""
+    repo = ctx.repo
+    f = repo.func(f"{CORE}:Kconfig._sanitize_bool_literal_defaults")
+    ctx.analysed(f.qual)
+    tests = [n for n in ast.walk(f.node) if isinstance(n, ast.Compare) and len(n.ops) == 1 and isinstance(n.ops[0], ast.In)
+             and "INVALID_BOOL_LITERALS" in ast.unparse(n.comparators[0])]
+    construct = "Kconfig._sanitize_bool_literal_defaults/legacy literals are matched as written"
+    if not tests:
+        raise AnchorError("_sanitize_bool_literal_defaults: lookup in INVALID_BOOL_LITERALS not found")
+    folded = [t for t in tests if any(isinstance(x, ast.Attribute) and x.attr in ("lower", "upper", "casefold", "title", "capitalize") for x in ast.walk(t))]
+    (ctx.bad(construct, f"`{ast.unparse(folded[0])}` folds the case: a default that names a real option called YES / TRUE / NO ... is rewritten to n",
+             f.loc(folded[0])) if folded else ctx.ok(construct, f.loc(tests[0])))
+
 def rules():
-    return [("R01.10", r01_10, 2), ("R01.9", r01_9, 10), ("R01.1", r01_1, 9), ("R01.2", r01_2, 5), ("R01.3", r01_3, 5), ("R01.4", r01_4, 12), ("R01.5", r01_5, 7),
+    return [("R01.11", r01_11, 1), ("R01.10", r01_10, 2), ("R01.9", r01_9, 10), ("R01.1", r01_1, 9), ("R01.2", r01_2, 5), ("R01.3", r01_3, 5), ("R01.4", r01_4, 12), ("R01.5", r01_5, 7),
             ("R01.6", r01_6, 5), ("R01.7", r01_7, 4), ("R01.8", r01_8, 14)]
